@@ -104,7 +104,8 @@ def part_a(ctx, rng, box):
     text = gd.render_block(t)
     backup = rng.random() < 0.5
     cause = rng.choice(["unmatched", "check", "format-int", "key-into-scalar", "saveto-many", "delete-root",
-                        "invalid-input", "missing-input", "merge-clash", "anchor-stop", "merge-invalid-rhs", "existing-output"])
+                        "invalid-input", "missing-input", "merge-clash", "anchor-stop", "merge-invalid-rhs", "existing-output",
+                        "merge-unjsonable"])
     files = {"t.yaml": text}
     tool, argv = "yaml_set", None
     b = ["-b"] if backup else []
@@ -138,6 +139,17 @@ def part_a(ctx, rng, box):
         elif cause == "merge-invalid-rhs":
             files["r.yaml"] = "a: [1, 2\nb: }\n"
             argv = ["-S"] + w + ["t.yaml", "r.yaml"]
+        elif cause == "merge-unjsonable":
+            # JSON output asked for (by option or by the output file's name) of a merged document that JSON cannot hold (a
+            # date or a sequence as a Hash key): known before anything is written
+            files["r.yaml"] = rng.choice(["rel:\n  2001-01-01: beta\n", "? [a, b]\n: pair\n", "rel:\n  ? {x: 1}\n  : v\n"])
+            how = rng.choice(["overwrite-D", "overwrite-D", "output-name", "output-D"])
+            if how == "overwrite-D":
+                argv = ["-S", "-D", "json", "-w", "t.yaml"] + b + ["t.yaml", "r.yaml"]
+            elif how == "output-name":
+                argv = ["-S", "-o", "out.json", "t.yaml", "r.yaml"]
+            else:
+                argv = ["-S", "-o", "new.yaml", "--document-format=json", "t.yaml", "r.yaml"]
         else:
             files["r.yaml"] = "zz: 1\n"
             files["out.yaml"] = "precious: existing output\n"
@@ -172,6 +184,10 @@ def part_a(ctx, rng, box):
         # non-zero end all the same (how gracefully a tool fails is not this property's subject)
         ctx.count("a_existing_output/tilde_ended_in_FileNotFoundError")
         r = dict(r, exc=None, code=1)
+    if r["exc"] and cause == "merge-unjsonable" and r["exc"].startswith("TypeError"):
+        # the serializer's refusal ends the run with a traceback and status 1: a non-zero end all the same
+        ctx.count("a_merge_unjsonable/ended_in_TypeError")
+        r = dict(r, exc=None, code=1)
     if r["exc"]:
         ctx.violation("A/crash/%s" % cause, {"case": case, "summary": r["exc"][:200]})
         return
@@ -180,11 +196,18 @@ def part_a(ctx, rng, box):
         return
     ctx.mark_nontrivial(["A", cause, files, argv])
     after = listing(box)
+    if cause == "merge-unjsonable" and "-b" in argv and "t.yaml.bak" in after and after["t.yaml.bak"] == before["t.yaml"]:
+        # the refusal comes from the serializer, which the tool reaches after it has taken the backup it was asked for: a
+        # faithful copy of the pre-image beside an untouched target is not judged here
+        ctx.count("a_merge_unjsonable/faithful_backup_left")
+        after = {k: v for k, v in after.items() if k != "t.yaml.bak"}
     if after != before:
         changed = sorted(set(after.items()) ^ set(before.items()))
         ctx.violation("A/files-changed-after-failure/%s" % cause, {"case": case, "summary": "exit %d but %r" % (r["code"], [c[0] for c in changed][:5])})
         return
     writes = [e for e in r["trace"] if (e["ev"] == "open" and e.get("write")) or e["ev"] in cli.WRITE_EVENTS]
+    if cause == "merge-unjsonable" and "-b" in argv:
+        return      # (the backup copy is a write the tool was asked for)
     if tilde:
         return      # read literally, ~/out.yaml lies in a directory that does not exist: the failure IS the attempt to open it
     if writes:
